@@ -81,7 +81,9 @@ Theorem c09_raw_header_any_capture : forall f n hdr rate pool drops inif outif f
     (forall j k, (j <= length (frame_chain f))%nat ->
        (length (concat (map lhdr (firstn j (frame_chain f)))) <= length (firstn n (encode_frame f)))%nat ->
        In k (fkeys (applied false (firstn j (frame_chain f)))) ->
-       alookup (cols m) k = alookup (cols (framed (sample_base rate inif outif flen) f)) k).
+       alookup (cols m) k = alookup (cols (framed (sample_base rate inif outif flen) f)) k) /\
+    (* the ethertype and the VLAN id: as the sample left them (unset) or a true ethertype field / VLAN tag of the frame *)
+    tags_ok (sample_base rate inif outif flen) m f.
 Proof. exact raw_header_cut_flow_sample. Qed.
 Print Assumptions c09_raw_header_any_capture.
 
@@ -91,7 +93,8 @@ Theorem c09_raw_header_any_capture_expanded : forall f n hdr rate pool drops inf
     convert_sf empty_pcfg {| sKind := SExpFlowS; sHdr := hdr; sVals := [rate; pool; drops; infmt; inif; outfmt; outif; 1];
                              sRecs := [mk_header 1 flen stripped (firstn n (encode_frame f))] |} = Ok m /\
     cols_ok (sample_base rate inif outif flen) m f /\ layers_ok m f /\
-    complete_ok (sample_base rate inif outif flen) m f (length (firstn n (encode_frame f))).
+    complete_ok (sample_base rate inif outif flen) m f (length (firstn n (encode_frame f))) /\
+    tags_ok (sample_base rate inif outif flen) m f.
 Proof. exact raw_header_cut_expanded_sample. Qed.
 Print Assumptions c09_raw_header_any_capture_expanded.
 
